@@ -110,3 +110,40 @@ pub fn guarded<T>(f: impl FnOnce() -> T + std::panic::UnwindSafe) -> Result<T, S
         if let Some(s) = e.downcast_ref::<&str>() { s.to_string() } else if let Some(s) = e.downcast_ref::<String>() { s.clone() } else { "panic".into() }
     })
 }
+
+// ---------------------------------------------------------------------------------------------------------------
+// Counting global allocator (C04): live / peak heap bytes of the whole process, with a hard ceiling that turns a
+// runaway allocation into an allocation failure (abort) instead of exhausting the machine.
+use std::alloc::{GlobalAlloc, Layout, System};
+use std::sync::atomic::{AtomicUsize, Ordering};
+pub struct Counting;
+pub static LIVE: AtomicUsize = AtomicUsize::new(0);
+pub static PEAK: AtomicUsize = AtomicUsize::new(0);
+pub static CEILING: AtomicUsize = AtomicUsize::new(usize::MAX);
+unsafe impl GlobalAlloc for Counting {
+    unsafe fn alloc(&self, l: Layout) -> *mut u8 {
+        let now = LIVE.fetch_add(l.size(), Ordering::Relaxed) + l.size();
+        if now > CEILING.load(Ordering::Relaxed) { LIVE.fetch_sub(l.size(), Ordering::Relaxed); return std::ptr::null_mut(); }
+        PEAK.fetch_max(now, Ordering::Relaxed);
+        let p = System.alloc(l);
+        if p.is_null() { LIVE.fetch_sub(l.size(), Ordering::Relaxed); }
+        p
+    }
+    unsafe fn dealloc(&self, p: *mut u8, l: Layout) { LIVE.fetch_sub(l.size(), Ordering::Relaxed); System.dealloc(p, l) }
+    unsafe fn realloc(&self, p: *mut u8, l: Layout, new: usize) -> *mut u8 {
+        if new > l.size() {
+            let now = LIVE.fetch_add(new - l.size(), Ordering::Relaxed) + (new - l.size());
+            if now > CEILING.load(Ordering::Relaxed) { LIVE.fetch_sub(new - l.size(), Ordering::Relaxed); return std::ptr::null_mut(); }
+            PEAK.fetch_max(now, Ordering::Relaxed);
+        } else { LIVE.fetch_sub(l.size() - new, Ordering::Relaxed); }
+        System.realloc(p, l, new)
+    }
+}
+/// run `f` and report (result, peak heap growth in bytes over the level at entry, elapsed microseconds)
+pub fn measured<T>(f: impl FnOnce() -> T) -> (T, usize, u128) {
+    let base = LIVE.load(Ordering::Relaxed);
+    PEAK.store(base, Ordering::Relaxed);
+    let t = std::time::Instant::now();
+    let r = f();
+    (r, PEAK.load(Ordering::Relaxed).saturating_sub(base), t.elapsed().as_micros())
+}
